@@ -93,6 +93,12 @@ check("C12", "exploration",
   "Only compatible targets are generated, so the 'incompatible targets are rejected' clause is not exercised; known finding: MergeRowGroups with a schema that adds columns under optional/repeated groups (5 listed classes).",
   "DESIGN.md §2 C12")
 
+check("C20", "model_checking",
+  "explicit exhaustive exploration of all call histories up to depth H on one shared codec value under a deterministic instance pool (always-reuse / never-reuse, injected through the overlay pool shim), followed by round-trip probes over inputs x destination-buffer kinds x destination capacities",
+  "For 7 codecs every sequence of <=2 (quick) / <=3 (thorough) operations from {Encode(x), Decode(Encode(x)), Decode(invalid y)} - 7 inputs incl. empty, highly compressible and incompressible 64 KiB, 10 invalid inputs incl. truncated and bit-flipped frames - is executed on one codec value whose pooled compressor/decompressor objects are forced to be reused (or never reused); then Decode(Encode(x)) must be exact for every input, 6 destination kinds (nil, empty, cap 1, exact, 4x, an alias of the previous result) and every capacity 0..len+2 for small inputs. Decoding garbage may fail in any way except not returning.",
+  "Hook: sync.Pool of internal/memory replaced by the deterministic vsync.Pool (overlay, build tag verif). Inputs beyond the 7 listed and histories longer than H are not covered; concurrent use of one codec value is part of C15.",
+  "DESIGN.md §2 C20")
+
 NOT_YET = "check not built yet in this round (design in DESIGN.md §2); not claimed until its check exists"
 
 m = {
